@@ -43,7 +43,8 @@ CLAIMED["C09"] = dict(engine="split", design="4 C09",
         "position by a duplicate-key block holding the key, the FIRST block and the complete duplicate (count preserved, first wins in both "
         "key indexes, duplicate-field blocks never registered); for every text an entry repeating a field name is emitted as a duplicate-field "
         "block whose inner entry keeps every occurrence; tied to /repo by correspondence on grammar documents with colliding key pools "
-        "(incl. previous_block identity) and an independent Python oracle.",
+        "(incl. previous_block identity) and an independent Python oracle; incremental parsing (Splitter.split(library=L), parse_string(library=L)) is "
+        "modelled (split_into), proved equal to adding all blocks in one go (C09_incremental) and compared (op 135).",
    note="'one raw block per source block of a well-formed document' is C02's theorem/correspondence; model hand-written, tied by correspondence",
    technique="Coq proof (fold invariant over Library.add; field-name invariant over the splitter machine) + differential correspondence via extracted model")
 CLAIMED["C19"] = dict(engine="entry", design="4 C19",
@@ -140,8 +141,9 @@ CLAIMED["C07"] = dict(engine="heap", design="4 C07",
        "<=3 x write_string formats (own deep-copy reference, id()-based aliasing, fail-closed walker) and (b) differential correspondence of "
        "the framework model against the real framework with 9 probe bodies + Resolve/Sort/LibraryMiddleware/write_string/copy.deepcopy in "
        "copy AND in-place mode, comparing the exact sharing pattern.",
-  note="ASSUMED: copy.deepcopy meets dc_contract (explicit hypothesis DC of every theorem, no axiom); the executable copy is proved to meet "
-       "it whenever it completes (C07_deepcopy_exec_partial; fuel sufficiency not proved) and is compared with CPython's deepcopy on every "
+  note="ASSUMED of CPython: copy.deepcopy meets dc_contract (explicit hypothesis DC of every theorem, no axiom); the executable fuelled graph "
+       "copy used to run the model is PROVED total on every well-formed heap and an instance of dc_contract (C07_deepcopy_exec_total, "
+       "C07_deepcopy_exec_contract, C07_stack_exec: the stack theorem with no DC hypothesis) and is compared with CPython's deepcopy on every "
        "run. PROVED for the framework, the probe bodies and the bodies of ALL shipped block middlewares, transcribed at heap level and proved "
        "footprint_ok for every string table (C07_shipped_footprints, C07_shipped_copy_mode, C07_shipped_stack, C07_write_string_default); the real "
        "shipped middlewares are compared with these body models in copy and in-place mode. 'writing twice gives identical text' is tested; the theorem gives "
@@ -162,8 +164,8 @@ CLAIMED["C05"] = dict(engine="roundtrip", design="4 C05",
    technique="Coq proof (writer output is the rendering of a well-formed grammar AST; C02 applied twice) + differential correspondence via extracted model")
 
 CLAIMED["C12"] = dict(engine="names", design="4 C12",
-  text="Coq theorems over a faithful model of split_multiple_persons_names: conservation for ALL strings (segment invariant over the fold), equality with an independent word-level reference splitter, the protection corollary and merge+split idempotence for ALL brace-balanced strings; tied to /repo by bounded-exhaustive differential correspondence (function and SeparateCoAuthors/MergeCoAuthors) and an independent Python oracle.",
-  note="idempotence on unbalanced strings is tested (oracle on every run), not proved; model hand-written, tied by correspondence; whitespace sets regenerated from the running module; extraction cross-checked by vm_compute",
+  text="Coq theorems over a faithful model of split_multiple_persons_names: conservation for ALL strings (segment invariant over the fold), equality with an independent word-level reference splitter, the protection corollary for ALL brace-balanced strings, and merge+split idempotence for ALL strings (C12_idempotent_all: forward simulation of the machine on the text with every passed separator normalised to ' and '); tied to /repo by bounded-exhaustive differential correspondence (function and SeparateCoAuthors/MergeCoAuthors) and an independent Python oracle.",
+  note="exactness against the word-level reference is for brace-balanced strings (a stray closing brace has no word-level counterpart); model hand-written, tied by correspondence; whitespace sets regenerated from the running module; extraction cross-checked by vm_compute",
   technique="Coq proof (fold invariants, backward simulation against word-level spec) + differential correspondence via extracted model")
 CLAIMED["C13"] = dict(engine="names", design="4 C13",
   text="Coq theorem that strict parse_single_name_into_parts IS the compositional transcription of BibTeX's algorithm (atoms/sections/words/word_case/partition) for ALL strings, that InvalidNameError is raised exactly for unbalanced braces / >2 commas / trailing comma, words-once, Last keeps the final word, strict only adds errors, and SplitNameParts never raises but returns a MiddlewareErrorBlock retaining the entry; spec and Python oracle validated on the repo's 149+11 BibTeX-derived cases at every run.",
